@@ -38,8 +38,15 @@ def generate(seed, tier):
     obs.append({"t": "residual", "builder": rng.choice(BUILDERS), "rm": True if default else rng.random() < 0.5,
                 "rj": True if default else rng.random() < 0.5})
     mark_manual(stream(seed, "c17-manual"), obs, 0.08)
-    if stream(seed, "c17-blocks").random() < 0.08:
+    rb = stream(seed, "c17-blocks").random()
+    if rb < 0.08:
         obs[-1]["builder"] = "blocks_reversed"
+    elif rb < 0.12:
+        obs[-1]["builder"] = "blocks_jobs_only"
+    ru = stream(seed, "c17-userfilter")
+    if ru.random() < 0.12:
+        # a user-defined filter, which may hide the operation that could start first (current time moves differently)
+        names = [ru.choice(["user_keep_last", "user_longest_only"])] + (["dominated_operations"] if ru.random() < 0.3 else [])
     if default and stream(seed, "c17-kw").random() < 0.5:
         obs[-1]["kw_default"] = True
     faulty = rng.random() < 0.5
@@ -63,7 +70,7 @@ class H(Hooks):
     def __init__(self, w):
         self.upd = w.observers[-1][1]
         self.ospec = w.observers[-1][0]
-        if self.ospec["builder"] == "blocks_reversed":
+        if self.ospec["builder"].startswith("blocks_"):
             # a hand-composed graph: what each node stands for is read from the node entities the user created
             self.node_types = [(n.node_type.name, n.operation.operation_id if n.node_type.name == "OPERATION" else (n.machine_id if n.node_type.name == "MACHINE" else (n.job_id if n.node_type.name == "JOB" else None)))
                                for n in self.upd.job_shop_graph.nodes]
@@ -86,7 +93,7 @@ class H(Hooks):
         now = m.now()
         completed = {m.opid[o] for o in m.completed(now)}
         scheduled = {m.opid[o] for o in m.scheduled()}
-        rem_ops = {t[1] if self.ospec["builder"] == "blocks_reversed" else n for n, t in enumerate(self.node_types) if t[0] == "OPERATION" and removed[n]}
+        rem_ops = {t[1] if self.ospec["builder"].startswith("blocks_") else n for n, t in enumerate(self.node_types) if t[0] == "OPERATION" and removed[n]}
         when = f"after op {i} ({kind}), now={now}"
         ctx.check(completed <= rem_ops, "completed_operations_removed", lambda: f"{when}: completed operations {sorted(completed - rem_ops)} still in the graph")
         ctx.check(rem_ops <= scheduled, "unscheduled_never_removed", lambda: f"{when}: unscheduled operations {sorted(rem_ops - scheduled)} were removed")
